@@ -193,7 +193,50 @@ def execute(plan):
                              "result differs from a pristine module set: exit/exc %r/%r vs %r/%r; first difference at offset %d: after-history ...%r... vs pristine ...%r...; misbehaving plugin calls earlier in the history: %s; %s" % (
                                  got["exit"], got["exc"], want["exit"], want["exc"], pos, a[max(0, pos - 120):pos + 120], b[max(0, pos - 120):pos + 120], earlier, ctx)))
                 break
-        # -a documents == -f documents (same module set, end of history)
+        # a directory listed in either order gives, per PEL, the document its own -f gives (same options)
+        sels = [["-E"]] + [o["sel"] + [f for f in o["flags"] if f == "-P"] for o in plan["ops"] if o["op"] in ("a", "l", "f")][:2]
+        for sel in sels:
+            if vio:
+                break
+            per_file = {}
+            for p in plan["pels"]:
+                rf = w.run(["-f", "@/D/" + p["name"]] + sel)
+                okf, jf = common.parse_json_stream(rf.stdout) if rf.stdout else (False, None)
+                if okf and isinstance(jf, dict):
+                    try:
+                        key = int(jf["Private Header"]["Entry Id"], 16)     # a damaged copy may show another id
+                    except Exception:
+                        continue
+                    if key in per_file:
+                        per_file = None          # two files showing one id: relation not applicable
+                        break
+                    per_file[key] = jf
+            if per_file is None:
+                bump("relation_skipped_duplicate_ids")
+                continue
+            for extra in ([], ["-r"]):
+                rd = w.run(["-p", "@/D", "-a"] + sel + extra)
+                okd, jd = common.parse_json_stream(rd.stdout)
+                bump("relation_all_vs_file")
+                if not okd or not isinstance(jd, list):
+                    vio.append(V("all-not-json", "%s: stdout is not a JSON array: %r" % (rd.argv, rd.stdout[:200])))
+                    break
+                got = {}
+                for d in jd:
+                    try:
+                        got[int(d["Private Header"]["Entry Id"], 16)] = d
+                    except Exception:
+                        pass
+                if set(got) != set(per_file):
+                    vio.append(V("all-vs-file-set-differs", "%s shows entry ids %s, but -f with the same options shows %s" % (
+                        rd.argv, sorted("%08X" % e for e in got), sorted("%08X" % e for e in per_file))))
+                    break
+                bad = [e for e in got if got[e] != per_file[e]]
+                if bad:
+                    e = bad[0]
+                    diff = [k for k in per_file[e] if per_file[e].get(k) != got[e].get(k)]
+                    vio.append(V("all-vs-file-differ", "%s: document of %08X differs from its -f document in sections %s" % (rd.argv, e, diff)))
+                    break
         ra = w.run(["-p", "@/D", "-a", "-E"])
         ok, ja = common.parse_json_stream(ra.stdout)
         if ok and isinstance(ja, list) and not vio:
